@@ -8,12 +8,17 @@ pub fn fix_length(s: &mut String, len: usize) {
         }
     }
 
-    while s.len() > len {
+    // the length is counted in characters: a character above 127 takes two bytes
+    let mut count = s.chars().count();
+
+    while count > len {
         s.pop();
+        count -= 1;
     }
 
-    while s.len() < len {
+    while count < len {
         s.push(' ');
+        count += 1;
     }
 }
 
